@@ -430,6 +430,52 @@ def corr_fea(ctx, rng, mats):
     return lines, info, keys
 
 
+def tangent_case(case):
+    """the matrix from which the stiffness is condensed must be the tangent of the state that is returned:
+    both `calculate_axial_from_*` routines are handed a Jacobian, and `PythonSolver.jacobian()` is a pure function
+    of the stored tangent field, so re-assembling it at the moment of the call must give the same matrix.  The
+    solve uses the documented DEFAULT solver tolerances (an over-converged solve hides a matrix that lags one
+    iteration behind).  Returns the worst relative difference, "raise" when a step does not converge."""
+    from srlife import structural, spring
+    origs = {n: getattr(structural.PythonSolver, n) for n in ("calculate_axial_from_fea", "calculate_axial_from_stress")}
+    cap = []
+
+    def mk(name):
+        def wrap(self, R, J):
+            Jn = self.jacobian()
+            cap.append(float(abs(J - Jn).max()) / float(abs(Jn).max()))
+            return origs[name](self, R, J)
+        return wrap
+    for n in origs:
+        setattr(structural.PythonSolver, n, mk(n))
+    try:
+        tube = make_tube(case)
+        solver = structural.PythonTubeSolver(verbose=False)           # default rtol/atol
+        sp = spring.TubeSpring(tube, solver, material(case["mat"]))
+        for i in range(1, len(case["times"])):
+            sp.force_and_stiffness(i, case["d"][i - 1])
+            sp.update_state(i)
+    except RuntimeError:
+        return "raise", len(cap)
+    finally:
+        for n, f in origs.items():
+            setattr(structural.PythonSolver, n, f)
+    return (max(cap) if cap else float("nan")), len(cap)
+
+
+def current_tangent_check(rng, mats, dims):
+    out, fails = [], []
+    for ndim in dims:
+        for mat in mats:
+            case = gen_case(rng, ndim, mat, 2, mesh=[3, 4, 2] if ndim == 3 else None, load=rng.choice([3.0, 6.0]))
+            worst, ncalls = tangent_case(case)
+            out.append((ndim, mat, worst))
+            if worst != "raise" and not worst <= 1e-12:
+                fails.append(("stale-tangent", "default solver tolerances: the Jacobian handed to the stiffness condensation differs "
+                              "from the tangent of the returned state by %.3e (relative, %d calls)" % (worst, ncalls), case, []))
+    return out, fails
+
+
 # ---------------------------------------------------------------------------
 def run(ctx):
     quick = ctx.quick()
@@ -652,6 +698,17 @@ def run(ctx):
         ctx.notes.append("%d planned histories not run: FD phase reached its %g s budget" % (len(unexplored), total_budget))
     if skipped:
         ctx.notes.append("%d of %d histories skipped because a real step did not converge or the history exceeded %g s" % (len(skipped), len(plan), per_history))
+    # ---------------- the condensed matrix is the tangent of the returned state (default tolerances) ----------------
+    tmats = (["Econst", "316H/base", "316H/elastic_creep"] if quick else ["Econst"] + inel)
+    tout, tfails = current_tangent_check(rng, tmats, (1, 2, 3))
+    for (nd, m, w) in tout:
+        ctx.case(("tangent", nd, m), nontrivial=(w != "raise"), tag="current-tangent/%dD" % nd,
+                 sample={"suite": "Jacobian handed to the condensation vs tangent of the returned state", "ndim": nd, "material": m, "rel_diff": w})
+    ctx.obligation("property predicate: the Jacobian from which the stiffness is condensed is the tangent of the returned state "
+                   "(default solver tolerances, 1D/2D/3D, %d solves)" % len(tout),
+                   not tfails and sum(1 for t in tout if t[2] != "raise") >= len(tout) // 2,
+                   ("%d failures; first: %s" % (len(tfails), tfails[0][1])) if tfails else "identical in all solves")
+    found = list(found) + tfails
     # failures that are the recorded open finding F30 (sub-divided inelastic step) are reported through the
     # known-findings channel; the obligation is about everything else
     known_sigs = {k.get("signature") for k in common.known_findings() if k.get("status") == "open" and k.get("property") == "C11"}
@@ -689,6 +746,11 @@ def replay(obj):
         print("replay names no input:", r)
         return 1
     c = r["case"]
+    if r.get("predicate") == "stale-tangent":
+        worst, ncalls = tangent_case(c)
+        print("case: %dD material=%s: Jacobian handed to the condensation vs tangent of the returned state: %s (%d calls)" % (
+            c["ndim"], c["mat"], worst, ncalls))
+        return 0 if (worst == "raise" or worst <= 1e-12) else 1
     bad, rows, skip = fd_case(c)
     print("case: %dD material=%s mesh=%s r=%.4g t=%.4g h=%.4g times=%s" % (c["ndim"], c["mat"], c["mesh"], c["r"], c["t"], c["h"], c["times"]))
     for row in rows:
